@@ -198,6 +198,32 @@ def box_time(mode):
                 yield ("tt", txt), True, _judge(
                     "%s parse(%r)" % (mode, txt), valid,
                     _try(lambda: P.parse(txt)), "time_text")
+        # decimal minute / second forms: 24:00 plus any fraction is impossible
+        if h in (0, 23, 24):
+            for frac, fv in (("0", 0.0), ("5", 0.5), ("000001", 1e-6),
+                             ("25", 0.25)):
+                valid = h < 24 or fv == 0.0
+                for txt in ("2001-02-03T%02d:00:00,%sZ" % (h, frac),
+                            "20010203T%02d0000.%sZ" % (h, frac),
+                            "2001-02-03T%02d:00,%sZ" % (h, frac),
+                            "20010203T%02d00,%sZ" % (h, frac)):
+                    yield ("tt", txt), True, _judge(
+                        "%s parse(%r)" % (mode, txt), valid,
+                        _try(lambda: P.parse(txt)), "time_text")
+                yield ("tsdec", h, frac), True, _judge(
+                    "%s TimePoint(2001-02-03, hour=%d, minute=0, second=0, "
+                    "second_decimal=%r)" % (mode, h, fv), valid, _try(
+                        lambda: D.TimePoint(
+                            year=2001, month_of_year=2, day_of_month=3,
+                            hour_of_day=h, minute_of_hour=0, second_of_minute=0,
+                            second_of_minute_decimal=fv)), "time")
+                yield ("tmdec", h, frac), True, _judge(
+                    "%s TimePoint(2001-02-03, hour=%d, minute=0, "
+                    "minute_decimal=%r)" % (mode, h, fv), valid, _try(
+                        lambda: D.TimePoint(
+                            year=2001, month_of_year=2, day_of_month=3,
+                            hour_of_day=h, minute_of_hour=0,
+                            minute_of_hour_decimal=fv)), "time")
         # decimal forms: 24 with a non-zero fraction is impossible
         if h >= 0:
             for frac, fv in (("0", 0.0), ("5", 0.5), ("000001", 1e-6)):
